@@ -160,6 +160,20 @@ func runC18(c *ctx) {
 		"pictures generated from the decimal-format grammar and mutated; every result compared with the Lean model and with math/big / strconv oracles"
 	r := c.rng.fork()
 	xs := c18Doubles(r, c.scale(600, 6000))
+
+	// 0. the option names of $formatNumber and the decimal-format defaults, compared behaviourally with the model (not by
+	// reading the source): every documented name, near misses, and each option actually taking effect
+	c.rep.Exhaustive = append(c.rep.Exhaustive, "decimal-format option names: the 11 documented ones and near misses, each with an effect-revealing picture")
+	for _, key := range []string{"decimal-separator", "grouping-separator", "exponent-separator", "infinity", "minus-sign", "NaN", "percent", "per-mille", "zero-digit", "digit", "pattern-separator",
+		"Decimal-Separator", "decimal_separator", "decimalSeparator", "decimal-seperator", "grouping", "nan", "Nan", "NAN", "permille", "per-mile", "zero", "zerodigit", "digits", "optional-digit",
+		"pattern", "separator", "minus", "exponent", "inf", "Infinity", "", " ", "decimal-separator ", "é"} {
+		for _, val := range []interface{}{"!", "x", "", "ab", 1.0} {
+			for _, pv := range [][2]interface{}{{"#!##0x00", 1234.5}, {"#,##0.00", -1234.5}, {"0.0e0", 1234.5}, {"0%", 0.5}, {"0‰", 0.5}, {"zz.z", 12.5}, {"#0.0;(#0.0)", -2.0}, {"0!0", 7.25}} {
+				in := map[string]interface{}{"p": pv[0], "x": pv[1], "o": map[string]interface{}{key: val}}
+				c.diffEval("$formatNumber(x, p, o)", in, "option-sweep")
+			}
+		}
+	}
 	oracle := func(prog string, in interface{}, want string, bucket string) {
 		g := goEval(prog, in)
 		c.note("oracle\x00"+prog+"\x00"+valueSexp(in), "oracle/"+bucket, true)
